@@ -89,7 +89,7 @@ Proof. split; reflexivity. Qed.
    event; a Network-Number-Is broadcast leaves the fragment (d_lost); the link layer (BVLL) is not in this model. *)
 From Bac Require Import PyRt Ssm SsmC04a SsmC04h.
 From Bac Require Npci Apci RouterCache SsmWorld.
-From Bac Require Import DeviceRx DeviceRxFacts DeviceRxReply DeviceRxEnd.
+From Bac Require Import DeviceRx DeviceRxFacts DeviceRxReply DeviceRxEnd DeviceRxPeer.
 From BacGen Require Import ApduFns.
 Open Scope Z_scope.
 
@@ -176,6 +176,15 @@ Theorem C10_one_reply_end_to_end : forall st now f x m a,
   exists fr, snd (device_rx st now f x) = [DFrame (mac_code (f_src f)) None fr] /\ a_invoke fr = a_invoke a.
 Proof. exact one_reply_end_to_end. Qed.
 Print Assumptions C10_one_reply_end_to_end.
+
+(* the key the model files a transaction under (Ssm.s_peer : Z) determines the station (network, MAC): two stations
+   never share a transaction, as `apdu.pduSource == tr.pdu_address` in the code *)
+Theorem C10_peer_key_injective : forall net m net' m',
+  bytes_ok m = true -> bytes_ok m' = true -> (length m <= 300)%nat -> (length m' <= 300)%nat ->
+  match net with Some n => (n < 65536)%N | None => True end -> match net' with Some n => (n < 65536)%N | None => True end ->
+  peer_code net m = peer_code net' m' -> net = net' /\ m = m'.
+Proof. exact peer_code_inj. Qed.
+Print Assumptions C10_peer_key_injective.
 
 (* non-vacuity: the device of the correspondence check; a ReadProperty frame; a frame of random octets; a truncated
    request; a request with a reserved max-APDU code *)
